@@ -63,6 +63,41 @@ pub fn corpus(idx: usize, seed: u64, w: &mut dyn Write, thorough: bool) -> Optio
             g.battery_queries();
             g.battery_faults();
             g.battery_drain();
+            // reuse where the second purchase computes NO new fee on the bucket side: 200 ujunox leaves 199
+            g.step(&x("david", natives(&[(3, "uosmo")]), MMsg::CL { id: 5, create: create(&[(200, JUNO_DENOM)]) }));
+            g.step(&x("david", vec![], MMsg::FI { id: 5, seconds: 600 }));
+            g.step(&x("bobby", natives(&[(200, JUNO_DENOM)]), MMsg::CB { id: 5 }));
+            g.step(&x("bobby", vec![], MMsg::BL { listing_id: 5, bucket_id: 5 }));
+            g.step(&x("carol", natives(&[(3, "uosmo")]), MMsg::CL { id: 6, create: create(&[(199, JUNO_DENOM)]) }));
+            g.step(&x("carol", vec![], MMsg::FI { id: 6, seconds: 600 }));
+            g.step(&x("david", vec![], MMsg::BL { listing_id: 6, bucket_id: 5 }));
+            g.step(&x("carol", vec![], MMsg::RB { id: 5 }));
+            // … and where the fee denomination was switched between the two purchases (fee-bearing bucket of the OTHER denomination only)
+            g.step(&x("david", natives(&[(3, "uosmo")]), MMsg::CL { id: 7, create: create(&[(5000, USDC_DENOM)]) }));
+            g.step(&x("david", vec![], MMsg::FI { id: 7, seconds: 1_209_600 }));
+            g.step(&x("bobby", natives(&[(5000, USDC_DENOM)]), MMsg::CB { id: 7 }));
+            g.step(&x("bobby", vec![], MMsg::BL { listing_id: 7, bucket_id: 7 }));
+            g.step(&Op::ADV { d_ns: 604_801_000_000_000, d_height: 100_000 });
+                        g.step(&x("alice", vec![], MMsg::FC));
+            g.step(&x("carol", natives(&[(3, "uosmo")]), MMsg::CL { id: 8, create: create(&[(4975, USDC_DENOM)]) }));
+            g.step(&x("carol", vec![], MMsg::FI { id: 8, seconds: 600 }));
+            g.step(&x("david", vec![], MMsg::BL { listing_id: 8, bucket_id: 7 }));
+            g.step(&x("carol", vec![], MMsg::RB { id: 7 }));
+            // NFT / cw20 / native top-up of a proceeds bucket that carries a fee, then withdrawal
+            g.step(&x("david", natives(&[(3, "uosmo")]), MMsg::CL { id: 9, create: create(&[(1000, JUNO_DENOM), (1000, USDC_DENOM)]) }));
+            g.step(&x("david", vec![], MMsg::FI { id: 9, seconds: 600 }));
+            g.step(&x("bobby", natives(&[(1000, JUNO_DENOM), (1000, USDC_DENOM)]), MMsg::CB { id: 9 }));
+            g.step(&x("bobby", vec![], MMsg::BL { listing_id: 9, bucket_id: 9 }));
+            let c0 = g.h.sim.cw721_addrs()[0].clone();
+            let t0 = g.h.sim.cw20_addrs()[0].clone();
+            let tid = g.h.sim.nft_owners(&c0).into_iter().find(|(_, o)| o == "david").map(|(t, _)| t).unwrap();
+            g.step(&Op::T721 { coll: c0, sender: "david".into(), token_id: tid, inner: Inner::AB { id: 9 } });
+            g.step(&Op::T20 { token: t0, sender: "david".into(), amount: 7, inner: Inner::AB { id: 9 } });
+            g.step(&x("david", natives(&[(5, JUNO_DENOM), (6, "uatom")]), MMsg::AB { id: 9 }));
+            g.battery_faults();
+            g.step(&x("david", vec![], MMsg::RB { id: 9 }));
+            g.step(&x("bobby", vec![], MMsg::WP { id: 9 }));
+            g.battery_drain();
             Some(g.stats)
         }
         1 => {
@@ -170,6 +205,18 @@ pub fn boundary(idx: usize, seed: u64, w: &mut dyn Write, thorough: bool) -> Opt
             g.step(&x("alice", natives(&[(5, JUNO_DENOM)]), MMsg::CB { id: 8 }));
             g.step(&Op::T20 { token: t.clone(), sender: "carol".into(), amount: 5, inner: Inner::CB { id: 8 } });
             g.step(&Op::T721 { coll: c.clone(), sender: "bobby".into(), token_id: "t002".into(), inner: Inner::CB { id: 8 } });
+            // an id taken through one path is refused through every other path, by anybody
+            g.step(&Op::T721 { coll: c.clone(), sender: "bobby".into(), token_id: "t003".into(), inner: Inner::CB { id: 20 } });
+            g.step(&x("carol", natives(&[(5, JUNO_DENOM)]), MMsg::CB { id: 20 }));
+            g.step(&Op::T20 { token: t.clone(), sender: "carol".into(), amount: 5, inner: Inner::CB { id: 20 } });
+            g.step(&Op::T20 { token: t.clone(), sender: "carol".into(), amount: 5, inner: Inner::CB { id: 21 } });
+            g.step(&x("bobby", natives(&[(5, JUNO_DENOM)]), MMsg::CB { id: 21 }));
+            g.step(&Op::T721 { coll: c.clone(), sender: "bobby".into(), token_id: "t002".into(), inner: Inner::CB { id: 21 } });
+            g.step(&Op::T721 { coll: c.clone(), sender: "bobby".into(), token_id: "t002".into(), inner: Inner::CL { id: 22, create: create(&[(5, "uatom")]) } });
+            g.step(&x("carol", natives(&[(5, JUNO_DENOM)]), MMsg::CL { id: 22, create: create(&[(5, "uatom")]) }));
+            g.step(&Op::T20 { token: t.clone(), sender: "carol".into(), amount: 5, inner: Inner::CL { id: 22, create: create(&[(5, "uatom")]) } });
+            g.step(&Op::T20 { token: t.clone(), sender: "carol".into(), amount: 5, inner: Inner::CL { id: 23, create: create(&[(5, "uatom")]) } });
+            g.step(&x("bobby", natives(&[(5, JUNO_DENOM)]), MMsg::CL { id: 23, create: create(&[(5, "uatom")]) }));
             // sold + withdrawn: listing 9 / bucket 9
             g.step(&x("alice", natives(&[(500, JUNO_DENOM)]), MMsg::CL { id: 9, create: create(&[(5, "uatom")]) }));
             g.step(&x("alice", vec![], MMsg::FI { id: 9, seconds: 600 }));
@@ -495,6 +542,94 @@ pub fn boundary(idx: usize, seed: u64, w: &mut dyn Write, thorough: bool) -> Opt
             g.probe(&Op::R { sender: "bobby".into(), msg: RMsg::Rem { nft: va(&colls[0]) } });
             Some(g.stats)
         }
+        13 | 14 => {
+            // royalty mixes: several NFTs of one collection interleaved with other collections
+            // (registered and unregistered) on the seller side (13) / buyer side (14), both fee denominations
+            let buyer_side = idx == 14;
+            let mut g = Gen::start(default_world(), &format!("boundary:{} royalty-mix side={}", idx, if buyer_side { "buyer" } else { "seller" }), seed, w, thorough);
+            let colls = g.h.sim.cw721_addrs().to_vec();
+            g.step(&Op::R { sender: DEPLOYER.into(), msg: RMsg::Reg { nft: va(&colls[0]), payout: va(PAYOUTS[0]), bps: 100 } });
+            g.step(&Op::R { sender: DEPLOYER.into(), msg: RMsg::Reg { nft: va(&colls[1]), payout: va(PAYOUTS[1]), bps: 300 } });
+            // colls[2] stays unregistered
+            let t = g.h.sim.cw20_addrs()[0].clone();
+            let orders: Vec<Vec<usize>> = vec![vec![0, 1, 0], vec![0, 2, 0, 1, 0], vec![1, 0, 1], vec![2, 0], vec![0, 0, 1], vec![2, 2]];
+            let mut id = 30u64;
+            for round in 0..2 {
+                for (k, order) in orders.iter().enumerate() {
+                    id += 1;
+                    let nft_side = ["alice", "carol", "david", "erinn", "frank", "alice"][k];
+                    let fung_side = "bobby";
+                    // NFTs of nft_side in the given collection order (fresh token each time)
+                    let mut used: Vec<(String, String)> = vec![];
+                    let mut nft_ops_assets: Vec<(String, String)> = vec![];
+                    for ci in order {
+                        let c = &colls[*ci];
+                        let own: Vec<String> = g.h.sim.nft_owners(c).into_iter().filter(|(tid, o)| o == nft_side && !used.contains(&(c.clone(), tid.clone()))).map(|(t, _)| t).collect();
+                        if let Some(tid) = own.first() {
+                            used.push((c.clone(), tid.clone()));
+                            nft_ops_assets.push((c.clone(), tid.clone()));
+                        }
+                    }
+                    if nft_ops_assets.is_empty() {
+                        continue;
+                    }
+                    let amt: u128 = [10_000u128, 33_333, 199, 20_000][k % 4];
+                    let fung = GenericBalance {
+                        native: natives(&[(amt, JUNO_DENOM), (amt + 1, USDC_DENOM), (amt, "uatom")]),
+                        cw20: vec![Cw20CoinVerified { address: Addr::unchecked(t.as_str()), amount: Uint128::new(amt) }],
+                        nfts: vec![],
+                    };
+                    let nfts_g = GenericBalance {
+                        native: vec![],
+                        cw20: vec![],
+                        nfts: nft_ops_assets.iter().map(|(c, tid)| Nft { contract_address: Addr::unchecked(c.as_str()), token_id: tid.clone() }).collect(),
+                    };
+                    // deposits in exactly this order (no shuffling): first creates, the rest top up
+                    let (lister, lister_assets, cr, payer, payer_assets) = if !buyer_side {
+                        (nft_side, &nfts_g, Create { ask: gbal_to_raw(&fung), whitelist: None }, fung_side, &fung)
+                    } else {
+                        (fung_side, &fung, Create { ask: gbal_to_raw(&nfts_g), whitelist: None }, nft_side, &nfts_g)
+                    };
+                    let mut first = true;
+                    for n in &lister_assets.nfts {
+                        let inner = if first { Inner::CL { id, create: cr.clone() } } else { Inner::AL { id } };
+                        g.step(&Op::T721 { coll: n.contract_address.to_string(), sender: lister.into(), token_id: n.token_id.clone(), inner });
+                        first = false;
+                    }
+                    if !lister_assets.native.is_empty() {
+                        let msg = if first { MMsg::CL { id, create: cr.clone() } } else { MMsg::AL { id } };
+                        g.step(&x(lister, lister_assets.native.clone(), msg));
+                        first = false;
+                    }
+                    for c in &lister_assets.cw20 {
+                        g.step(&Op::T20 { token: c.address.to_string(), sender: lister.into(), amount: c.amount.u128(), inner: Inner::AL { id } });
+                    }
+                    g.step(&x(lister, vec![], MMsg::FI { id, seconds: 600 }));
+                    let mut first = true;
+                    for n in &payer_assets.nfts {
+                        let inner = if first { Inner::CB { id } } else { Inner::AB { id } };
+                        g.step(&Op::T721 { coll: n.contract_address.to_string(), sender: payer.into(), token_id: n.token_id.clone(), inner });
+                        first = false;
+                    }
+                    if !payer_assets.native.is_empty() {
+                        let msg = if first { MMsg::CB { id } } else { MMsg::AB { id } };
+                        g.step(&x(payer, payer_assets.native.clone(), msg));
+                    }
+                    for c in &payer_assets.cw20 {
+                        g.step(&Op::T20 { token: c.address.to_string(), sender: payer.into(), amount: c.amount.u128(), inner: Inner::AB { id } });
+                    }
+                    g.step(&x(payer, vec![], MMsg::BL { listing_id: id, bucket_id: id }));
+                    g.step(&x(payer, vec![], MMsg::WP { id }));
+                    g.step(&x(lister, vec![], MMsg::RB { id }));
+                }
+                if round == 0 {
+                    g.step(&Op::ADV { d_ns: 604_802_000_000_000, d_height: 100_000 });
+                    g.step(&x("erinn", vec![], MMsg::FC));
+                }
+            }
+            g.battery_drain();
+            Some(g.stats)
+        }
         _ => None,
     }
 }
@@ -557,7 +692,7 @@ pub fn paging(idx: usize, seed: u64, w: &mut dyn Write, thorough: bool) -> Optio
     }
     let sim = Sim::new(Config { n_users: 3, n_cw20: 1, n_cw721: 1, nfts_per_user_per_collection: 1, n_hostile: 0, ..Config::default() });
     let mut g = Gen::start(sim, &format!("c16:{} paging", idx), seed, w, thorough);
-    let marks: Vec<usize> = if thorough { vec![0, 1, 19, 20, 21, 40, 41, 241, 260] } else { vec![0, 1, 19, 20, 21, 41, 241] };
+    let marks: Vec<usize> = if thorough { vec![0, 1, 19, 20, 21, 40, 41, 241, 260, 300] } else { vec![0, 1, 19, 20, 21, 41, 241, 281] };
     let top = *marks.last().unwrap();
     let all_pages: Vec<u8> = (1..=255u8).collect();
     let some_pages: Vec<u8> = vec![1, 2, 3, 12, 13, 14, 127, 128, 254, 255];
@@ -565,7 +700,7 @@ pub fn paging(idx: usize, seed: u64, w: &mut dyn Write, thorough: bool) -> Optio
     // interleave ids so storage order != creation order; bobby owns some in between
     for k in 0..=top {
         if marks.contains(&k) {
-            let pages = if k == 241 || k == top || k <= 21 { &all_pages } else { &some_pages };
+            let pages = if k == top || k <= 21 { &all_pages } else { &some_pages };
             for p in pages {
                 if idx == 0 {
                     g.query(&Query::BK { owner: va("alice"), page: *p });
